@@ -112,7 +112,11 @@ def read_int_token(scan):
     elif lit := scan.match(bin_literal):
         return tokens.IntToken(int(lit, 2))
     elif lit := scan.match(dec_literal):
-        return tokens.IntToken(int(lit, 10))
+        # Python refuses to convert decimal strings of more than 4300
+        # digits (sys.set_int_max_str_digits)
+        try: return tokens.IntToken(int(lit, 10))
+        except ValueError:
+            raise LexerError('Integer literal is too large', scan.cursor)
 
 ident_pattern = re.compile(r'[a-zA-Z_]\w*')
 keyword_tokens = {
